@@ -257,6 +257,14 @@ func runConc(id int, writers, per int, sizes []int, stallAt int) concLine {
 			for m := 1; m <= per; m++ {
 				id := uint32(w*100 + m)
 				msg := diam.NewMessage(272, 0x80, 4, id, id, dict.Default)
+				if w%2 == 0 {
+					// an answer to a message read from the peer (it carries stream 0) next to messages created
+					// locally (no stream assigned): one connection, one lock
+					if rq, err := diam.ReadMessage(bytes.NewReader(appMsg(272, 4, true, id)), dict.Default); err == nil {
+						msg = rq.Answer(0)
+						msg.Header.HopByHopID, msg.Header.EndToEndID = id, id
+					}
+				}
 				pay := bytes.Repeat([]byte{byte(id % 251)}, size(w, m)-28)
 				msg.NewAVP(uint32(25), 0x40, 0, datatype.OctetString(pay))
 				if _, err := msg.WriteTo(via[w%2]); err != nil {
